@@ -387,5 +387,11 @@ func (e *Exec) existedIn(old *Snapshot, x *Term) *Term {
 // (go-asn1-ber v1.5.5 readPacket): see DESIGN §4 T-BER. Stated for every packet
 // allocated by this call.
 func (e *Exec) wireFresh(st *State, old *Snapshot, q *Term) *Term {
-	return TTrue
+	pf, ok := e.db.pures["wire"]
+	if !ok {
+		return TTrue
+	}
+	ctx := e.newSpecCtx(st, e.P.tpkgs[pf.Pkg], old)
+	pt := ctx.resolveType(pf.Params[0].Type)
+	return ctx.callPred(pf, ctx.pkg, map[string]*specVar{pf.Params[0].Name: {v: q, t: pt}})
 }
